@@ -216,6 +216,7 @@ func explore(w *World, h *harnessRun, workers []*Worker, maxPaths int, deadline 
 	work := [][]int{{}}
 	active := 0
 	stopped := false
+	violAt := 0
 	var wg sync.WaitGroup
 	for _, wk := range workers {
 		wk := wk
@@ -251,6 +252,22 @@ func explore(w *World, h *harnessRun, workers []*Worker, maxPaths int, deadline 
 					h.mu.Lock()
 					fmt.Fprintf(os.Stderr, "[progress] %s paths=%d pending=%d ends=%v %.0fs\n", h.name, np, len(work), h.ends, time.Since(start).Seconds())
 					h.mu.Unlock()
+				}
+				h.mu.Lock()
+				nv := len(h.viols)
+				h.mu.Unlock()
+				if nv > 0 && !h.isMutant {
+					if violAt == 0 {
+						violAt = np
+					}
+					// the verdict is already "violated": look a little further for other kinds of
+					// violation, then stop instead of enumerating the rest of the path space
+					if np-violAt > 2000 {
+						stopped = true
+					}
+				}
+				if h.isMutant && nv > 0 {
+					stopped = true // a control only has to be detected
 				}
 				if np >= maxPaths || time.Now().After(deadline) {
 					if (len(work) > 0 || active > 0) && !stopped {
